@@ -171,6 +171,9 @@ def table():
     t["Error"] = [T(dd + s1, gens=st), T(dd + "struct {S}{G}{W} {{ source: {C} }}", gens=st), T(dd + "#[display(\"e\")] struct {S}{G}{W} {{ @[error(source)] {F}: {C}, other: u8 }}", gens=st),
                   T(dd + "#[display(\"e\")] struct {S}{G}(@[error(not(source))] {C}){W};"), T(dd + "#[display(\"e\")] struct {S}{G}(@[error(ignore)] u8, @[error(source)] {C}){W};", gens=st),
                   T(dd + "#[display(\"e\")] enum {S}{G}{W} {{ {V}({C}), B {{ source: {C}, {F}: u8 }}, @[error(ignore)] Ig({C}), Cc }}", gens=st),
+                  T(dd + "#[display(\"e\")] enum {S}{G}{W} {{ {V}({C}), B {{ source: {C}, {F}: u8 }}, @[error(ignore)] Ig({C}) }}", gens=st, note="every considered variant has a source"),
+                  T(dd + "#[display(\"e\")] enum {S}{G}{W} {{ @[error(ignore)] Ig {{ source: {C} }}, {V}({C}) }}", gens=st, note="ignored variant first"),
+                  T(dd + "#[display(\"e\")] enum {S}{G}{W} {{ {V}({C}) }}", gens=st, note="single sourced variant"),
                   T(dd + "#[display(\"e\")] struct {S}<T> {{ source: T, {F}: u8 }}", gens=["none"]),
                   T(dd + "#[display(\"e\")] enum {S}<T, U> {{ {V}(T), B {{ source: U }}, Cc }}", gens=["none"]),
                   T(dd + "#[display(\"e\")] struct {S}{G}{W} {{ {F}: {C} }}"),
